@@ -948,9 +948,9 @@ def _hill_compare(a, b):
             return cmp(a.symbol, b.symbol)
 
 def _hill_key(a):
-    return "".join((("0" if a.symbol in ("C", "H") else "1"),
-                    a.symbol,
-                    "%4d"%(a.isotope if isisotope(a) else 0)))
+    # C, H, then alphabetical; isotopes by mass number, ions by charge
+    return (a.symbol not in ("C", "H"), a.symbol,
+            a.isotope if isisotope(a) else 0, a.charge)
 
 def _convert_to_hill_notation(atoms):
     """
